@@ -105,7 +105,7 @@ class struct(_composite_base):
         lhs = getattr(self, name)
         if isinstance(rhs, base_array):
             if codec_kind.is_composite(rhs._TYPE):
-                if rhs._DYNAMIC:
+                if rhs._DYNAMIC or rhs._BOUND:
                     del lhs[:]
                     lhs.extend(rhs[:])
                 else:
@@ -114,6 +114,9 @@ class struct(_composite_base):
             else:
                 lhs[:] = rhs[:]
         elif codec_kind.is_composite(type(rhs)):
+            if lhs is None:
+                setattr(self, name, True)
+                lhs = getattr(self, name)
             lhs.copy_from(rhs)
         else:
             self._fields[name] = rhs
